@@ -11,6 +11,7 @@ term: ["fn",k,i] | ["wr",k,i] | ["cm",t] | ["sm",t] | ["bd",t] | ["pt",t] | ["pm
 """
 import functools
 import inspect
+import threading
 import types
 import warnings
 
@@ -25,12 +26,16 @@ class Suspend:
 
 
 # marker line 0 at the start of the body, marker line 1 in the clean-up code (finally:), which
-# runs on exhaustion as well as when the object is closed early, thrown into or dropped
+# runs on exhaustion as well as when the object is closed early, thrown into or dropped.
+# The text does not mention the leaf's number (it is the global ME of the namespace the
+# function is defined in): all leaves of one kind are textually identical functions of the
+# same name at the same line of DIFFERENT files, i.e. their code objects compare equal by
+# value (co_filename is not part of code equality) - as for a vendored / copied module.
 SRC = {
-    0: "def f{i}(*a, **k):\n    T({i}, 0)\n    T({i}, 1)\n    return {i}\n",
-    1: "def f{i}(*a, **k):\n    T({i}, 0)\n    try:\n        yield 1\n        yield 2\n    finally:\n        T({i}, 1)\n",
-    2: "async def f{i}(*a, **k):\n    T({i}, 0)\n    try:\n        await SUSP()\n    finally:\n        T({i}, 1)\n    return {i}\n",
-    3: "async def f{i}(*a, **k):\n    T({i}, 0)\n    try:\n        yield 1\n        await SUSP()\n        yield 2\n    finally:\n        T({i}, 1)\n",
+    0: "def f(*a, **k):\n    T(ME, 0)\n    T(ME, 1)\n    return ME\n",
+    1: "def f(*a, **k):\n    T(ME, 0)\n    try:\n        yield 1\n        yield 2\n    finally:\n        T(ME, 1)\n",
+    2: "async def f(*a, **k):\n    T(ME, 0)\n    try:\n        await SUSP()\n    finally:\n        T(ME, 1)\n    return ME\n",
+    3: "async def f(*a, **k):\n    T(ME, 0)\n    try:\n        yield 1\n        await SUSP()\n        yield 2\n    finally:\n        T(ME, 1)\n",
 }
 MARK_LINES = {0: (2, 3), 1: (2, 7), 2: (2, 6), 3: (2, 8)}
 MODES = ['exhaust', 'close', 'throw', 'drop']
@@ -128,10 +133,10 @@ class Ctx:
         if i in self.byid:          # the same function object used twice inside one object
             self.order.append(i)
             return self.byid[i]
-        ns = {'T': self.T, 'SUSP': Suspend}
+        ns = {'T': self.T, 'SUSP': Suspend, 'ME': i}
         fname = '<c16-%d-%d>' % (self.caseno, i)
-        exec(compile(SRC[k].format(i=i), fname, 'exec'), ns)
-        f = ns['f%d' % i]
+        exec(compile(SRC[k], fname, 'exec'), ns)
+        f = ns['f']
         self.leaves[id(f)] = (i, k)
         self.byid[i] = f
         self.kinds[i] = k
@@ -244,16 +249,61 @@ def plan_for(t):
     if tag == 'cp':
         modes = [m for m in modes if m != 'drop']    # the value stays cached on the instance
     plan = []
+    first = [b for b in base if b[1] == 0 and b[0] not in ('cget2',)][:1]
     for m in modes:
         for how, d in base:
             if how in ('set', 'del', 'cget2') and m != 'exhaust':
                 continue                              # nothing to consume there
             plan.append((how, d, m))
+    for how, d in first:        # the same use from / beside another thread
+        plan.append((how, 0, 'thread:worker'))
+        plan.append((how, 0, 'thread:main'))
     return plan
 
 
 ACCESS_CODE = {'call': ACALL, 'inscall': ACALL, 'clscall': ACALL, 'get': AGET, 'set': ASET, 'del': ADEL,
                'cget': AGET, 'cget2': ACACHED}
+
+
+def in_thread(fn):
+    """run fn in a fresh thread, re-raising what it raised"""
+    box = []
+
+    def body():
+        try:
+            fn()
+        except BaseException as e:  # noqa
+            box.append(e)
+    th = threading.Thread(target=body)
+    th.start()
+    th.join(60)
+    if box:
+        raise box[0]
+
+
+def while_other_thread_inside(ctx, fn):
+    """run fn in this thread while another thread sits inside a profiled section"""
+    entered, leave = threading.Event(), threading.Event()
+    box = []
+
+    def other():
+        try:
+            with ctx.prof:
+                entered.set()
+                leave.wait(60)
+        except BaseException as e:  # noqa
+            box.append(e)
+            entered.set()
+    th = threading.Thread(target=other)
+    th.start()
+    entered.wait(60)
+    try:
+        fn()
+    finally:
+        leave.set()
+        th.join(60)
+    if box:
+        raise box[0]
 
 
 def perform(ctx, obj, plan):
@@ -282,7 +332,18 @@ def perform(ctx, obj, plan):
             state['inst'].x          # cached: nothing runs; the cached value is not used again
     for how, d, mode in plan:
         ctx.runs = []
-        if d:
+        where = 'here'
+        if mode.startswith('thread:'):
+            where, mode = mode, 'exhaust'
+        if where == 'thread:worker':
+            # the access happens in a worker thread (its own enable depth 0) while the main
+            # thread is inside a profiled section
+            with ctx.prof:
+                in_thread(lambda: act(how, mode))
+        elif where == 'thread:main':
+            # ... and in the main thread while a worker is inside a profiled section
+            while_other_thread_inside(ctx, lambda: act(how, mode))
+        elif d:
             with ctx.prof:
                 act(how, mode)
         else:
